@@ -223,138 +223,69 @@ Proof.
   unfold blank, drop_star. destruct (trim_start l); [reflexivity|discriminate].
 Qed.
 
-(* what the code shows of one attribute: first line, then every continuation
-   line minus one leading star *)
-Lemma normalize_nonblank s :
-  flat_map nonblank (normalize s) =
-  match split_nl s with
-  | first :: rest => nonblank first ++ flat_map (fun l => nonblank (drop_star l)) rest
-  | [] => []
+(* the code's decoration test is the specification's: every non-blank
+   continuation line begins (after blanks) with '*' *)
+Lemma trim_shape l :
+  match trim_start l with
+  | [] => trim l = []
+  | c :: r => trim l = c :: trim_end r
   end.
 Proof.
-  unfold normalize. destruct (split_nl s) as [|first rest]; [reflexivity|].
-  cbn [flat_map]. rewrite norm_first_nonblank. f_equal.
-  induction rest as [|l rest IH]; [reflexivity|].
-  cbn [map flat_map]. now rewrite norm_cont_nonblank, IH.
+  unfold trim. destruct (trim_start l) as [|c r] eqn:E; [reflexivity|].
+  apply trim_end_cons_nws. exact (trim_start_head _ _ _ E).
+Qed.
+
+Lemma is_decorated_spec rest : is_decorated rest = decorated rest.
+Proof.
+  unfold is_decorated, decorated. induction rest as [|l rest IH]; [reflexivity|].
+  cbn [map filter forallb]. unfold blank, starts_star. pose proof (trim_shape l) as H.
+  destruct (trim_start l) as [|c r].
+  - rewrite H. cbn [is_nil negb orb]. exact IH.
+  - rewrite H. cbn [is_nil negb orb forallb first_is_star]. now rewrite IH.
 Qed.
 
 Lemma flat_map_map {A B C} (f : A -> B) (g : B -> list C) l :
   flat_map g (map f l) = flat_map (fun x => g (f x)) l.
 Proof. induction l as [|x l IH]; cbn [map flat_map]; [reflexivity|now rewrite IH]. Qed.
 
-(* outside K19 the normalisation removes decoration only *)
+Lemma flat_map_ext' {A B} (f g : A -> list B) l :
+  (forall x, f x = g x) -> flat_map f l = flat_map g l.
+Proof. intros H. induction l as [|x l IH]; cbn [flat_map]; [reflexivity|now rewrite H, IH]. Qed.
+
+(* the normalisation removes whitespace and decoration only: the non-blank
+   characters of the normalised lines of an attribute are those of its text *)
 Lemma normalize_lossless s :
-  k19_attr s = false ->
   flat_map nonblank (normalize s) = flat_map nonblank (declared_lines s).
 Proof.
-  unfold k19_attr, declared_lines. rewrite normalize_nonblank.
+  unfold normalize, declared_lines.
   destruct (split_nl s) as [|first rest]; [reflexivity|].
-  intros H. cbn [flat_map]. f_equal.
-  destruct (decorated rest) eqn:D.
-  - now rewrite flat_map_map.
-  - cbn [negb andb] in H.
-    induction rest as [|l rest IH]; [reflexivity|].
-    cbn [existsb] in H. apply orb_false_iff in H. destruct H as [Hl Hr].
-    cbn [flat_map]. rewrite (drop_star_no_star _ Hl). f_equal.
-    (* the tail: same argument without needing [decorated] *)
-    clear -Hr. induction rest as [|x rest IH]; [reflexivity|].
-    cbn [existsb] in Hr. apply orb_false_iff in Hr. destruct Hr as [Hx Hr].
-    cbn [flat_map]. now rewrite (drop_star_no_star _ Hx), (IH Hr).
+  cbn [flat_map]. rewrite norm_first_nonblank. f_equal.
+  rewrite is_decorated_spec. destruct (decorated rest).
+  - rewrite !flat_map_map. apply flat_map_ext'. intros l. apply norm_cont_nonblank.
+  - rewrite flat_map_map. apply flat_map_ext'. intros l. apply nonblank_trim.
 Qed.
 
-Lemma length_drop_le l : (length (nonblank (drop_star l)) <= length (nonblank l))%nat.
+(* 3'. the full clause: no text of the comment is lost *)
+Theorem doc_lossless_declared docs : shown (extract docs) = declared_text docs.
 Proof.
-  destruct (starts_star l) eqn:E.
-  - rewrite (starts_star_nonblank _ E). cbn [length]. lia.
-  - rewrite (drop_star_no_star _ E). lia.
-Qed.
-
-(* inside K19 a star that is text is always lost *)
-Lemma k19_loses s :
-  k19_attr s = true ->
-  (length (flat_map nonblank (normalize s)) < length (flat_map nonblank (declared_lines s)))%nat.
-Proof.
-  unfold k19_attr, declared_lines. rewrite normalize_nonblank.
-  destruct (split_nl s) as [|first rest]; [discriminate|].
-  intros H. apply andb_true_iff in H. destruct H as [D E].
-  apply negb_true_iff in D. rewrite D. cbn [flat_map]. rewrite !app_length.
-  apply Nat.add_lt_mono_l. clear D.
-  induction rest as [|l rest IH]; [discriminate|].
-  cbn [existsb] in E. cbn [flat_map]. rewrite !app_length.
-  destruct (starts_star l) eqn:El.
-  - rewrite (starts_star_nonblank _ El). cbn [length].
-    assert (length (flat_map (fun l0 => nonblank (drop_star l0)) rest)
-            <= length (flat_map nonblank rest))%nat.
-    { clear. induction rest as [|x rest IH]; [cbn; lia|].
-      cbn [flat_map]. rewrite !app_length. pose proof (length_drop_le x). lia. }
-    lia.
-  - cbn [orb] in E. specialize (IH E). rewrite (drop_star_no_star _ El). lia.
-Qed.
-
-(* 3'. the full clause: no text of the comment is lost — outside K19 *)
-Theorem doc_lossless_declared docs :
-  k19_class docs = false -> shown (extract docs) = declared_text docs.
-Proof.
-  intros H. rewrite doc_lossless. unfold doc_lines, declared_text.
+  rewrite doc_lossless. unfold doc_lines, declared_text.
   induction docs as [|s docs IH]; [reflexivity|].
-  cbn [k19_class existsb] in H. apply orb_false_iff in H. destruct H as [Hs Hd].
-  cbn [flat_map]. rewrite flat_map_app.
-  rewrite (normalize_lossless _ Hs). f_equal. exact (IH Hd).
+  cbn [flat_map]. rewrite flat_map_app, normalize_lossless. f_equal. exact IH.
 Qed.
 
-Theorem doc_lossless_b_ok docs :
-  k19_class docs = false -> doc_lossless_b docs (extract docs) = true.
+Theorem doc_lossless_b_ok docs : doc_lossless_b docs (extract docs) = true.
 Proof.
-  intros H. unfold doc_lossless_b. rewrite (doc_lossless_declared _ H).
+  unfold doc_lossless_b. rewrite doc_lossless_declared.
   apply list_eqb_spec; [apply N.eqb_eq|reflexivity].
 Qed.
 
-(* … and inside K19 it always is *)
-Theorem k19_refuted docs :
-  k19_class docs = true ->
-  (length (shown (extract docs)) < length (declared_text docs))%nat.
+(* what IS removed from a decorated attribute: per continuation line the one
+   leading star; from any other attribute: nothing but whitespace *)
+Theorem undecorated_keeps_lines s first rest :
+  split_nl s = first :: rest -> decorated rest = false ->
+  normalize s = map trim (first :: rest).
 Proof.
-  intros H. rewrite doc_lossless. unfold doc_lines, declared_text.
-  induction docs as [|s docs IH]; [discriminate|].
-  cbn [flat_map]. rewrite !flat_map_app, !app_length.
-  assert (Hle : forall s, (length (flat_map nonblank (normalize s))
-                           <= length (flat_map nonblank (declared_lines s)))%nat).
-  { intros t. destruct (k19_attr t) eqn:E.
-    - pose proof (k19_loses _ E). lia.
-    - rewrite (normalize_lossless _ E). lia. }
-  assert (Hle2 : forall ds, (length (flat_map nonblank (flat_map normalize ds))
-      <= length (flat_map (fun s => flat_map nonblank (declared_lines s)) ds))%nat).
-  { induction ds as [|t ds IHd]; [cbn; lia|].
-    cbn [flat_map]. rewrite !flat_map_app, !app_length. pose proof (Hle t). lia. }
-  cbn [k19_class existsb] in H. destruct (k19_attr s) eqn:E.
-  - pose proof (k19_loses _ E). pose proof (Hle2 docs). lia.
-  - cbn [orb] in H. specialize (IH H). pose proof (Hle s). lia.
-Qed.
-
-Theorem k19_doc_lossless_b_false docs :
-  k19_class docs = true -> doc_lossless_b docs (extract docs) = false.
-Proof.
-  intros H. unfold doc_lossless_b.
-  destruct (list_eqb N.eqb (shown (extract docs)) (declared_text docs)) eqn:E; [|reflexivity].
-  apply list_eqb_spec in E; [|apply N.eqb_eq].
-  pose proof (k19_refuted _ H) as Hl. rewrite E in Hl. lia.
-Qed.
-
-(* single-line attributes (every [///] comment) are never in K19 *)
-Lemma split_nl_no_nl s : forallb (fun c => negb (c =? NL)) s = true -> split_nl s = [s].
-Proof.
-  induction s as [|c s IH]; [reflexivity|].
-  cbn [forallb]. intros H. apply andb_true_iff in H. destruct H as [Hc Hs].
-  cbn [split_nl]. apply negb_true_iff in Hc. rewrite Hc, (IH Hs). reflexivity.
-Qed.
-
-Theorem line_comments_never_k19 docs :
-  forallb (fun s => forallb (fun c => negb (c =? NL)) s) docs = true -> k19_class docs = false.
-Proof.
-  induction docs as [|s docs IH]; [reflexivity|].
-  cbn [forallb]. intros H. apply andb_true_iff in H. destruct H as [Hs Hd].
-  cbn [k19_class existsb]. unfold k19_attr at 1. rewrite (split_nl_no_nl _ Hs).
-  cbn. exact (IH Hd).
+  intros E D. unfold normalize. rewrite E, is_decorated_spec, D. reflexivity.
 Qed.
 
 (* the description never ends in whitespace, the summary is never empty *)
